@@ -83,6 +83,15 @@ def run(chk, tier, replay):
     hs = histories(chk, tier) + wcommon.count_boundary_histories(chk, tier)
     cfgs = configs(tier)
     execs, meta, files, faults = wcommon.run_histories(chk, hs, cfgs, modes=(), with_file=True, determinism=True)
+    lg = [h for h in wcommon.long_histories(chk, tier) if len(h) > 2]
+    if tier == "quick":
+        lg = lg[::3]
+    lcfgs = [(0, 1024), (1, 1 << 20), (5, 300), (2, 4096), (6, 64)]
+    e3, m3, f3, _ = wcommon.run_histories(chk, lg, lcfgs, modes=(), with_file=True, determinism=True, label="l")
+    execs += e3
+    meta.update(m3)
+    files.update(f3)
+    hs = hs + lg
     seen = set()
     for cid, (ops, codec, page) in meta.items():
         fb = files.get(cid)
